@@ -481,6 +481,91 @@ C09Scope ==
           o \in SegListsOver(C09T2, 1, C09OuterOrigs), i \in SegListsOver(InnerX, 1, C09InnerOrigs),
           w \in BOOLEAN, rm \in BOOLEAN}
 
+-----------------------------------------------------------------------------
+(* the mappings codec (C12)                                                 *)
+SegT(gl, gc, o) == <<gl, gc, o[1], o[2], o[3], o[4]>>
+SegLe6(a, b) == a[1] < b[1] \/ (a[1] = b[1] /\ a[2] <= b[2])
+
+C12Origs ==
+  {<<-1, 0, 0, -1>>} \cup
+  {<<si, ol, oc, ni>> : si \in {0, 1}, ol \in {1, 2}, oc \in {0, 2}, ni \in {-1, 0, 1}}
+C12Segs == {SegT(gl, gc, o) : gl \in {1, 2}, gc \in {0, 1, 3}, o \in C12Origs}
+C12SlimOrigs == {<<-1, 0, 0, -1>>, <<0, 1, 0, -1>>, <<0, 1, 0, 0>>, <<1, 2, 1, -1>>}
+C12SlimSegs == {SegT(gl, gc, o) : gl \in {1, 2}, gc \in {0, 1}, o \in C12SlimOrigs}
+
+BigD == {0, 1, 15, 16, 31, 32, 1023, 1024, 1048576, 1073741823}
+(* one field takes big values in two consecutive segments, the rest is fixed *)
+BigPairs ==
+  {<<SegT(1, a, <<0, 1, 0, -1>>), SegT(1 + (IF b < a THEN 1 ELSE 0), b, <<0, 1, 0, -1>>)>> : a \in BigD, b \in BigD}
+  \cup {<<SegT(1, 0, <<a, 1, 0, -1>>), SegT(1, 1, <<b, 1, 0, -1>>)>> : a \in BigD, b \in BigD}
+  \cup {<<SegT(1, 0, <<0, a + 1, 0, -1>>), SegT(1, 1, <<0, b + 1, 0, -1>>)>> : a \in BigD, b \in BigD}
+  \cup {<<SegT(1, 0, <<0, 1, a, -1>>), SegT(1, 1, <<0, 1, b, -1>>)>> : a \in BigD, b \in BigD}
+  \cup {<<SegT(1, 0, <<0, 1, 0, a>>), SegT(1, 1, <<0, 1, 0, b>>)>> : a \in BigD, b \in BigD}
+  \cup {<<SegT(a + 1, 0, <<0, 1, 0, -1>>), SegT(a + 1 + b, 0, <<0, 1, 0, -1>>)>> : a \in {0, 1, 31, 32}, b \in {0, 1, 33}}
+
+CodecProg(segs) ==
+  Prog(<<[op |-> "codec", segs |-> segs], [op |-> "lines_encode", segs |-> segs]>>)
+
+(* grammar strings the crate's own encoder never produces                   *)
+Redundant(ds) ==
+  [ds EXCEPT ![Len(ds)] = B64Char(B64Val(ds[Len(ds)]) + 32)] \o <<65>>
+Dg(delta, red) == IF red THEN Redundant(Digits(delta)) ELSE Digits(delta)
+
+(* like Vlq!EncStep, with a per-segment choice of spelling and extra        *)
+(* characters (empty segments) in front; columns may go backwards           *)
+SpellStep(st, s) ==
+  LET semis == [i \in 1..(s.gl - st.line) |-> SEMI]
+      newline == s.gl > st.line
+      sep == IF newline \/ st.first THEN <<>> ELSE <<COMMA>>
+      gc0 == IF newline THEN 0 ELSE st.gc
+      head == semis \o sep \o s.pre \o Dg(s.gc - gc0, s.red)
+  IN IF s.si < 0
+       THEN [st EXCEPT !.line = s.gl, !.gc = s.gc, !.first = FALSE, !.out = st.out \o head]
+       ELSE
+         LET body == Dg(s.si - st.si, s.red) \o Dg(s.ol - st.ol, s.red)
+                       \o Dg(s.oc - st.oc, s.red)
+                       \o (IF s.ni >= 0 THEN Dg(s.ni - st.ni, s.red) ELSE <<>>)
+         IN [st EXCEPT !.line = s.gl, !.gc = s.gc, !.first = FALSE, !.si = s.si,
+                       !.ol = s.ol, !.oc = s.oc,
+                       !.ni = IF s.ni >= 0 THEN s.ni ELSE st.ni,
+                       !.out = st.out \o head \o body]
+Spell(segs) == FoldLeft(SpellStep, EncInit, segs).out
+
+GSeg(gl, gc, o, red, pre) ==
+  [gl |-> gl, gc |-> gc, si |-> o[1], ol |-> o[2], oc |-> o[3], ni |-> o[4], red |-> red, pre |-> pre]
+GOrigs == {<<-1, 0, 0, -1>>, <<0, 1, 0, -1>>, <<1, 2, 16, -1>>, <<0, 1, 16, 1>>, <<1, 1, 0, 0>>}
+GFirst == {GSeg(gl, gc, o, red, <<>>) : gl \in {1, 2}, gc \in {0, 1, 17}, o \in GOrigs, red \in BOOLEAN}
+GSecond(f) ==
+  {GSeg(gl, gc, o, red, pre) : gl \in {f.gl, f.gl + 2}, gc \in {0, 1, 16},
+     o \in {<<-1, 0, 0, -1>>, <<0, 1, 0, -1>>, <<1, 3, 2, 0>>}, red \in BOOLEAN,
+     pre \in {<<>>, <<COMMA>>}}
+GrammarStrings ==
+  {Spell(<<f>>) : f \in GFirst}
+  \cup UNION {{Spell(<<f, g>>) : g \in GSecond(f)} : f \in GFirst}
+  \cup {pre \o Spell(<<f, g>>) \o suf :
+          f \in {GSeg(1, 1, <<0, 1, 0, -1>>, FALSE, <<>>), GSeg(2, 0, <<1, 2, 16, 0>>, TRUE, <<>>)},
+          g \in {GSeg(2, 0, <<-1, 0, 0, -1>>, FALSE, <<>>), GSeg(2, 5, <<0, 1, 0, -1>>, FALSE, <<COMMA>>)},
+          pre \in {<<>>, <<COMMA>>, <<SEMI>>, <<SEMI, SEMI>>, <<COMMA, COMMA>>},
+          suf \in {<<>>, <<COMMA>>, <<SEMI>>, <<SEMI, COMMA>>}}
+  \cup {<<>>, <<SEMI>>, <<COMMA>>, <<SEMI, SEMI, SEMI>>}
+
+VlqBatches(bound, size) ==
+  {Prog(<<[op |-> "vlq_batch", lo |-> lo, hi |-> lo + size - 1, base |-> 1048576]>>) :
+     lo \in {x \in (0 - bound)..(bound - 1) : (x + bound) % size = 0}}
+
+C12Scope ==
+  IF Scope # "c12" THEN {} ELSE
+  {CodecProg(<<a>>) : a \in C12Segs}
+  \cup {CodecProg(<<p[1], p[2]>>) : p \in {q \in C12Segs \X C12Segs : SegLe6(q[1], q[2])}}
+  \cup {CodecProg(<<p[1], p[2], p[3]>>) :
+          p \in {q \in C12SlimSegs \X C12SlimSegs \X C12SlimSegs :
+                   SegLe6(q[1], q[2]) /\ SegLe6(q[2], q[3])}}
+  \cup {CodecProg(p) : p \in BigPairs}
+  \cup {Prog(<<[op |-> "decode", m |-> g]>>) : g \in GrammarStrings}
+  \cup VlqBatches(1024, 512)
+
+C12VlqScope == IF Scope # "c12vlq" THEN {} ELSE VlqBatches(1048576, 4096)
+
 (* size of buffer() is not known to the generator; writers are placed at    *)
 (* every budget up to a bound that covers these small trees                 *)
 ProgSet ==
@@ -490,6 +575,8 @@ ProgSet ==
     [] Scope = "c06" -> C06Scope
     [] Scope = "c06r" -> C06RScope
     [] Scope = "c08" -> C08Scope
+    [] Scope = "c12" -> C12Scope
+    [] Scope = "c12vlq" -> C12VlqScope
     [] Scope \in {"c09", "c09full"} -> C09Scope
     [] Scope = "c07" -> {Prog(<<Build(t)>> \o ViewObs(9)) : t \in ViewTrees}
     [] OTHER -> {}
